@@ -194,7 +194,7 @@ PROPS['C07'] = dict(
     passes=c07_passes,
     post=c07_post,
     level='fault_enumeration',
-    rule='case = (valid 1-4-d table, one of 28 mutation kinds with random parameters, one of 5 reader entry points; every third case also both CLI tools); '
+    rule='case = (valid 1-4-d table, one of 31 mutation kinds with random parameters, one of 5 reader entry points; every third case also both CLI tools); '
          'distinct_nontrivial counts distinct mutated byte strings; counters give accepted/rejected per mutation kind',
     assumptions=ASSUME_COMMON,
     require={'any': {'reads-failed': 500, 'reads-succeeded': 150, 'batteries-run': 100, 'reuse-after-failure-checks': 400, 'tool-runs:photospline-eval': 200,
